@@ -153,6 +153,32 @@ func HarnessC13_missing() {
 	_, err := c06Eval(doc)
 	vAssert("C13.missing", err != nil)
 	vCover("missing.checked")
+	// several references in one template: a missing one at ANY position is
+	// an error, whatever the others resolve to
+	refs := []string{"a", "$env:FOO", "nope", "$env:NOPE", "m.zz"}
+	texts := []string{"1", "x", "", "", ""}
+	n := 2 + ndChoice(2)
+	tmpl := `$"`
+	want := ""
+	anyMissing := false
+	for i := 0; i < n; i++ {
+		r := ndChoice(len(refs))
+		if r >= 2 {
+			anyMissing = true
+		}
+		tmpl += "<{" + refs[r] + "}>"
+		want += "<" + texts[r] + ">"
+	}
+	tmpl += `"`
+	got, err2 := c06Eval(map[string]any{"a": 1, "m": map[string]any{"b": 2}, "t": tmpl})
+	vObserve("tmpl", tmpl)
+	if anyMissing {
+		vCover("missing.multi")
+		vAssert("C13.missing.anyposition", err2 != nil)
+	} else {
+		vAssert("C13.multi.accepted", err2 == nil)
+		vAssert("C13.multi.text", vEq(got[0].(map[string]any)["t"], want))
+	}
 }
 
 // HarnessC13_witness: C13-K1.
